@@ -49,12 +49,13 @@ PickW(ws) == LET s == Expand(ws) IN s[Pick(1..Len(s))]
 Ctx0 == [rd |-> {"g0", "g1"}, wr |-> {"g0", "g1"}, loc |-> {}, defd |-> {}, labs |-> <<>>, incase |-> FALSE, pure |-> FALSE,
          fcall |-> TRUE, clos |-> {}, fs |-> FALSE, ret |-> "none", rvar |-> FALSE, dfr |-> FALSE, top |-> FALSE,
          litidx |-> FALSE, ptrs |-> {}, sls |-> {}, maps |-> {}, strs |-> {}, gotos |-> <<>>,
-         outer |-> [rd |-> {}, clos |-> {}, ptrs |-> {}, sls |-> {}, maps |-> {}, strs |-> {}], d |-> 2]
+         sts |-> {"t"}, qs |-> {}, bools |-> {}, consts |-> {}, clos1 |-> {},
+         outer |-> [rd |-> {}, clos |-> {}, ptrs |-> {}, sls |-> {}, maps |-> {}, strs |-> {}, sts |-> {}, qs |-> {}, bools |-> {}, clos1 |-> {}], d |-> 2]
 
 RECURSIVE GenE(_, _), GenC(_, _), GenS(_), GenB(_, _), GenLitBody(_), GenDeferBody(_)
 
 \* a map key: a literal or a variable (taken modulo 4 by the semantics and the renderer)
-GenKey(c) == IF c.litidx \/ Pick(1..2) = 1 THEN Lit(Pick(0..3)) ELSE Var(Pick(c.rd))   \* Excluded_F_C01_3
+GenKey(c) == IF Pick(1..2) = 1 THEN Lit(Pick(0..3)) ELSE Var(Pick(c.rd))
 \* a string literal over {a, b, c} of length 0..3 (the parameter keeps TLC from caching the draw)
 RandStr(z) == [k |-> "slit", cs |-> [i \in 1..Pick(0..(3 + 0 * z)) |-> Pick(97..99)]]
 StrVar(c)  == [k |-> "sv", s |-> Pick(c.strs)]
@@ -64,16 +65,23 @@ GenStr(c)  == IF Pick(1..2) = 1 THEN StrOp(c) ELSE [k |-> "scat", l |-> StrOp(c)
 GenLeaf(c) ==
     LET k == PickW(<< <<3, "lit">>, <<4, "var">>, <<1, "fld">>, <<1, "idx">>, <<IF c.ptrs # {} THEN 2 ELSE 0, "deref">>,
                       <<IF c.sls # {} THEN 2 ELSE 0, "sl">>, <<IF c.maps # {} THEN 2 ELSE 0, "mget">>,
-                      <<IF c.maps # {} THEN 1 ELSE 0, "mlen">>, <<IF c.strs # {} THEN 1 ELSE 0, "slen">> >>) IN
+                      <<IF c.maps # {} THEN 1 ELSE 0, "mlen">>, <<IF c.strs # {} THEN 1 ELSE 0, "slen">>,
+                      <<IF c.sts # {"t"} THEN 3 ELSE 0, "ufld">>, <<IF c.qs # {} THEN 2 ELSE 0, "qfld">>, <<1, "usum">>,
+                      <<IF c.consts # {} THEN 2 ELSE 0, "cvar">> >>) IN
     CASE k = "lit" -> Lit(Pick(0..5))
       [] k = "mget"  -> [k |-> "mget", s |-> Pick(c.maps), i |-> GenKey(c)]
       [] k = "mlen"  -> [k |-> "mlen", s |-> Pick(c.maps)]
+      [] k = "ufld"  -> [k |-> "ufld", s |-> Pick(c.sts), f |-> Pick({"a", "b"})]
+      [] k = "qfld"  -> [k |-> "qfld", p |-> Pick(c.qs), f |-> Pick({"a", "b"})]
+      [] k = "usum"  -> IF c.qs # {} /\ Pick(1..3) = 1 THEN [k |-> "usum", via |-> "ptr", s |-> Pick(c.qs)]
+                        ELSE [k |-> "usum", via |-> "val", s |-> Pick(c.sts)]
+      [] k = "cvar"  -> LET kc == Pick(c.consts) IN [k |-> "cvar", x |-> kc[1], v |-> kc[2]]
       [] k = "slen"  -> [k |-> "slen", s |-> Pick(c.strs)]
       [] k = "deref" -> [k |-> "deref", p |-> Pick(c.ptrs)]
       [] k = "sl"    -> [k |-> "sl", s |-> Pick(c.sls), ix |-> Pick(0..2)]
       [] k = "var" -> Var(Pick(c.rd))
       [] k = "fld" -> [k |-> "fld", f |-> Pick({"a", "b"})]
-      [] k = "idx" -> [k |-> "idx", i |-> IF c.litidx \/ Pick(1..2) = 1 THEN Lit(Pick(0..1)) ELSE Var(Pick(c.rd))]
+      [] k = "idx" -> [k |-> "idx", i |-> IF Pick(1..2) = 1 THEN Lit(Pick(0..1)) ELSE Var(Pick(c.rd))]
 
 \* pure expression
 GenE(d, c) ==
@@ -86,24 +94,28 @@ GenE(d, c) ==
 \* the one effectful call of a call-carrying statement
 HasCall(c) == ~c.pure /\ (c.fcall \/ c.clos # {})
 GenCall(c) ==
-    IF c.clos # {} /\ (~c.fcall \/ Pick(1..2) = 1) THEN [k |-> "clo", c |-> Pick(c.clos)]
+    IF c.clos # {} /\ (~c.fcall \/ Pick(1..2) = 1)
+    THEN LET n == Pick(c.clos) IN [k |-> "clo", c |-> n, args |-> IF n \in c.clos1 THEN <<GenE(1, c)>> ELSE <<>>]
     ELSE CallE("f", GenE(1, c))
 
 RECURSIVE IsConstE(_)
-IsConstE(e) == e.k = "lit" \/ (e.k = "bin" /\ IsConstE(e.l) /\ IsConstE(e.r))
+IsConstE(e) == e.k \in {"lit", "cvar"} \/ (e.k = "bin" /\ IsConstE(e.l) /\ IsConstE(e.r))
 
-\* Named exclusions of the random tiers (known findings, each with a pinned witness):
-\*  Excluded_F_C01_2: a condition never compares two constant expressions
-\*  Excluded_F_C01_3: inside && / || an index expression has a literal index
+\* (the named exclusions Excluded_F_C01_2 - constant-constant conditions - and Excluded_F_C01_3 -
+\* literal indices inside && and || - are gone: both defects were repaired)
 GenC(d, c) ==
     LET sw == IF c.strs # {} THEN 2 ELSE 0
-        k == IF d = 0 THEN PickW(<< <<5, "cmp">>, <<sw, "scmp">> >>)
-             ELSE PickW(<< <<5, "cmp">>, <<sw, "scmp">>, <<1, "and">>, <<1, "or">>, <<1, "not">> >>)
-        c2 == [c EXCEPT !.litidx = ~Pinned]
+        bw == IF c.bools # {} THEN 3 ELSE 0
+        uw == IF Cardinality(c.sts) >= 2 THEN 1 ELSE 0
+        k == IF d = 0 THEN PickW(<< <<5, "cmp">>, <<sw, "scmp">>, <<bw, "bvar">>, <<uw, "ucmp">> >>)
+             ELSE PickW(<< <<5, "cmp">>, <<sw, "scmp">>, <<bw, "bvar">>, <<uw, "ucmp">>, <<1, "and">>, <<1, "or">>, <<1, "not">> >>)
+        c2 == c
     IN
     CASE k = "cmp" -> LET l == GenE(1, c)
                           r == GenE(IF d = 0 THEN 0 ELSE 1, c)
-                      IN Cmp(Pick({"lt", "le", "eq", "ne"}), IF ~Pinned /\ IsConstE(l) /\ IsConstE(r) THEN Var(Pick(c.rd)) ELSE l, r)
+                      IN Cmp(Pick({"lt", "le", "eq", "ne"}), l, r)
+      [] k = "bvar" -> [k |-> "bvar", s |-> Pick(c.bools)]
+      [] k = "ucmp" -> LET l == Pick(c.sts) IN [k |-> "ucmp", op |-> Pick({"eq", "ne"}), s |-> l, from |-> Pick(c.sts \ {l})]
       [] k = "scmp" -> [k |-> "scmp", op |-> Pick({"eq", "ne", "lt"}), l |-> StrVar(c), r |-> StrOp(c)]
       [] k = "and" -> [k |-> "and", l |-> GenC(0, c2), r |-> GenC(0, c2)]
       [] k = "or"  -> [k |-> "or",  l |-> GenC(0, c2), r |-> GenC(0, c2)]
@@ -116,9 +128,14 @@ FreePtrs(c)  == {"p1", "p2"} \ (c.defd \cup c.ptrs)
 FreeSls(c)   == {"s1", "s2"} \ (c.defd \cup c.sls)
 \* the names visible where the outermost enclosing loop begins (kept while inside nested loops)
 Snap(c) == IF c.labs # <<>> THEN c.outer
-           ELSE [rd |-> c.rd, clos |-> c.clos, ptrs |-> c.ptrs, sls |-> c.sls, maps |-> c.maps, strs |-> c.strs]
+           ELSE [rd |-> c.rd, clos |-> c.clos, ptrs |-> c.ptrs, sls |-> c.sls, maps |-> c.maps, strs |-> c.strs,
+                 sts |-> c.sts, qs |-> c.qs, bools |-> c.bools, clos1 |-> c.clos1]
 FreeMaps(c)  == {"m1", "m2"} \ (c.defd \cup c.maps)
 FreeStrs(c)  == {"w1", "w2"} \ (c.defd \cup c.strs)
+FreeSts(c)   == {"u1", "u2"} \ (c.defd \cup c.sts)
+FreeQs(c)    == {"q1", "q2"} \ (c.defd \cup c.qs)
+FreeBools(c) == {"b1", "b2"} \ (c.defd \cup c.bools)
+FreeConsts(c) == {"k1", "k2"} \ (c.defd \cup {kc[1] : kc \in c.consts})
 Inner(c)     == [c EXCEPT !.defd = {}, !.d = c.d - 1]
 
 \* body of a function literal of type func() int: its locals are its own
@@ -131,18 +148,20 @@ GenLitBody(c) ==
 \*  loops - the interpreter shows it the last iteration's variable, known finding)
 \*  widened: nor to any variable declared inside the body of an enclosing loop)
 GenDeferBody(c) ==
-    LET cut == ~Pinned /\ c.labs # <<>>
+    LET cut == FALSE      \* (the exclusion Excluded_F_C06_1 - no variable of an enclosing loop in a deferred literal - is gone: repaired)
         c0 == IF cut THEN [c EXCEPT !.rd = @ \cap c.outer.rd, !.wr = @ \cap c.outer.rd, !.clos = @ \cap c.outer.clos,
                                     !.ptrs = @ \cap c.outer.ptrs, !.sls = @ \cap c.outer.sls, !.maps = @ \cap c.outer.maps,
-                                    !.strs = @ \cap c.outer.strs]
+                                    !.strs = @ \cap c.outer.strs, !.sts = @ \cap (c.outer.sts \cup {"t"}), !.qs = @ \cap c.outer.qs,
+                                    !.bools = @ \cap c.outer.bools, !.clos1 = @ \cap c.outer.clos1]
               ELSE c
         c1 == [Inner(c0) EXCEPT !.ret = "bare", !.labs = <<>>, !.gotos = <<>>, !.dfr = TRUE, !.loc = {}, !.top = FALSE]
         rec == IF Pick(1..3) # 1 THEN << [k |-> "recover", how |-> PickW(<< <<4, "direct">>, <<1, "helper">> >>),
                                          setr |-> c.rvar /\ Pick(1..2) = 1] >> ELSE <<>>
         pre == GenB(Pick(0..1), c1)
         dd  == {pre[i].x : i \in {j \in 1..Len(pre) : pre[j].k \in {"def", "gloop"}}} \cup {pre[i].c : i \in {j \in 1..Len(pre) : pre[j].k = "mkclo"}}
-               \cup {pre[i].p : i \in {j \in 1..Len(pre) : pre[j].k = "mkptr"}}
-               \cup {pre[i].s : i \in {j \in 1..Len(pre) : pre[j].k \in {"mksl", "slshare", "mkmap", "mshare", "sdef", "ssub"}}}
+               \cup {pre[i].p : i \in {j \in 1..Len(pre) : pre[j].k \in {"mkptr", "mkpu"}}}
+               \cup {pre[i].x : i \in {j \in 1..Len(pre) : pre[j].k = "cdef"}}
+               \cup {pre[i].s : i \in {j \in 1..Len(pre) : pre[j].k \in {"mksl", "slshare", "mkmap", "mshare", "sdef", "ssub", "umk", "bdef"}}}
         post == IF Pick(1..4) = 1 THEN << [k |-> "panic", e |-> Lit(Pick(6..9))] >>
                 ELSE GenB(Pick(0..1), [c1 EXCEPT !.defd = dd])
     IN pre \o rec \o post
@@ -177,6 +196,13 @@ Kinds(c) ==
           <<IF FreeStrs(c) # {} /\ ~c.pure THEN 2 ELSE 0, "sdef">>, <<IF c.strs # {} THEN 5 * eff ELSE 0, "sasg">>,
           <<IF c.strs # {} THEN 2 * eff ELSE 0, "sidx">>, <<IF c.strs # {} /\ FreeStrs(c) # {} THEN 2 * eff ELSE 0, "ssub">>,
           <<IF c.strs # {} THEN 5 * eff ELSE 0, "prints">>, <<IF c.strs # {} THEN 2 * eff ELSE 0, "srng">>,
+          <<IF FreeSts(c) # {} /\ ~c.pure THEN 2 ELSE 0, "umk">>,
+          <<IF c.sts # {"t"} THEN 3 * eff ELSE 0, "ucopy">>, <<IF c.sts # {"t"} THEN 5 ELSE 0, "ufset">>,
+          <<2 * eff, "ubump">>, <<IF c.sts # {"t"} THEN 4 * eff ELSE 0, "uprint">>,
+          <<IF FreeQs(c) # {} /\ ~c.pure THEN 1 ELSE 0, "mkpu">>,
+          <<IF c.qs # {} THEN 4 * eff ELSE 0, "qfset">>, <<IF c.qs # {} THEN 2 * eff ELSE 0, "qcopy">>,
+          <<IF FreeBools(c) # {} THEN 2 ELSE 0, "bdef">>, <<IF c.bools # {} THEN 3 ELSE 0, "basg">>,
+          <<IF FreeConsts(c) # {} THEN 1 ELSE 0, "cdef">>,
           <<IF deep /\ Len(c.gotos) < 3 THEN 1 ELSE 0, "gscope">>, <<IF c.gotos # <<>> THEN 4 ELSE 0, "goto">>,
           <<IF deep /\ FreeNames(c) # {} THEN 1 ELSE 0, "gloop">>,
           <<IF deep THEN 2 ELSE 0, "while">>,
@@ -205,8 +231,7 @@ GenS(c) ==
       [] k = "asg2"  -> LET x == Pick(c.wr) IN
                         S([k |-> "asg2", x |-> x, y |-> Pick(IF Cardinality(c.wr) > 1 THEN c.wr \ {x} ELSE c.wr), e |-> GenE(1, c)])
       [] k = "fset"  -> S([k |-> "fset", f |-> Pick({"a", "b"}), e |-> GenE(1, c)])
-      \* Excluded_F_C01_8: no dereference inside the elements of a composite literal
-      [] k = "tlit"  -> LET c2 == IF Pinned THEN c ELSE [c EXCEPT !.ptrs = {}] IN
+      [] k = "tlit"  -> LET c2 == c IN
                         S([k |-> "tlit", a |-> GenE(1, c2), b |-> GenE(1, c2)])
       [] k = "iset"  -> S([k |-> "iset", i |-> GenLeaf(c), e |-> GenE(1, c)])
       [] k = "iop"   -> S([k |-> "iop", i |-> GenE(1, c), e |-> GenE(1, c)])
@@ -224,13 +249,12 @@ GenS(c) ==
                            el |-> IF Pick(1..2) = 1 THEN GenB(Pick(1..2), Inner(c)) ELSE <<>>])
       [] k = "for"   -> LET v   == <<"i", "j", "k">>[Len(c.labs) + 1]
                             lab == <<"L1", "L2", "L3">>[Len(c.labs) + 1]
-                            \* Excluded_F_C01_4: the body does not assign the loop variable
-                            c1  == [Inner(c) EXCEPT !.rd = @ \cup {v}, !.wr = IF Pinned THEN @ \cup {v} ELSE @ \ {v},
+                            c1  == [Inner(c) EXCEPT !.rd = @ \cup {v}, !.wr = @ \cup {v},
                                                     !.loc = @ \cup {v}, !.labs = Append(@, lab), !.outer = Snap(c)]
                         IN S([k |-> "for", v |-> v, n |-> Pick(1..3), lab |-> lab, body |-> GenB(Pick(1..3), c1)])
       [] k = "rng"   -> LET v   == <<"i", "j", "k">>[Len(c.labs) + 1]
                             lab == <<"L1", "L2", "L3">>[Len(c.labs) + 1]
-                            c1  == [Inner(c) EXCEPT !.rd = @ \cup {v}, !.wr = IF Pinned THEN @ \cup {v} ELSE @ \ {v},
+                            c1  == [Inner(c) EXCEPT !.rd = @ \cup {v}, !.wr = @ \cup {v},
                                                     !.loc = @ \cup {v}, !.labs = Append(@, lab), !.outer = Snap(c)]
                         IN S([k |-> "rng", v |-> v, n |-> Pick(1..3), lab |-> lab, body |-> GenB(Pick(1..3), c1)])
       [] k = "while" -> LET lab == <<"L1", "L2", "L3">>[Len(c.labs) + 1]
@@ -241,10 +265,32 @@ GenS(c) ==
                         LET v   == <<"i", "j", "k">>[Len(c.labs) + 1]
                             vv  == <<"vi", "vj", "vk">>[Len(c.labs) + 1]
                             lab == <<"L1", "L2", "L3">>[Len(c.labs) + 1]
-                            c1  == [Inner(c) EXCEPT !.rd = @ \cup {v, vv}, !.wr = IF Pinned THEN @ \cup {v, vv} ELSE @ \ {v, vv},
+                            c1  == [Inner(c) EXCEPT !.rd = @ \cup {v, vv}, !.wr = @ \cup {v, vv},
                                                     !.loc = @ \cup {v, vv}, !.labs = Append(@, lab), !.outer = Snap(c)]
                         IN S([k |-> k, s |-> IF k = "rngsl" THEN Pick(c.sls) ELSE "", v |-> v, vv |-> vv, lab |-> lab,
                               body |-> GenB(Pick(1..3), c1)])
+      [] k = "cdef"  -> LET n == Pick(FreeConsts(c))
+                            v == Pick(0..5)
+                        IN [s |-> [k |-> "cdef", x |-> n, v |-> v], c |-> [c EXCEPT !.consts = @ \cup {<<n, v>>}, !.defd = @ \cup {n}]]
+      [] k = "bdef"  -> LET n == Pick(FreeBools(c)) IN
+                        [s |-> [k |-> "bdef", s |-> n, c |-> GenC(1, c)], c |-> [c EXCEPT !.bools = @ \cup {n}, !.defd = @ \cup {n}]]
+      [] k = "basg"  -> S([k |-> "basg", s |-> Pick(c.bools), c |-> GenC(1, c)])
+      [] k = "umk"   -> LET n  == Pick(FreeSts(c))
+                            c2 == c
+                            f  == PickW(<< <<2, "copy">>, <<2, "lit">> >>)
+                        IN [s |-> [k |-> "umk", s |-> n, form |-> f, from |-> Pick(c.sts), a |-> GenE(1, c2), b |-> GenE(1, c2)],
+                            c |-> [c EXCEPT !.sts = @ \cup {n}, !.defd = @ \cup {n}]]
+      [] k = "ucopy" -> LET d == Pick(IF c.pure THEN c.sts \ {"t"} ELSE c.sts) IN
+                        S([k |-> "ucopy", s |-> d, from |-> Pick(c.sts \ {d})])
+      [] k = "ufset" -> S([k |-> "ufset", s |-> Pick(c.sts \ {"t"}), f |-> Pick({"a", "b"}), op |-> Pick({"set", "add"}), e |-> GenE(1, c)])
+      [] k = "ubump" -> IF c.qs # {} /\ Pick(1..3) = 1
+                        THEN S([k |-> "ubump", via |-> "ptr", s |-> Pick(c.qs), e |-> GenE(1, c)])
+                        ELSE S([k |-> "ubump", via |-> "val", s |-> Pick(c.sts), e |-> GenE(1, c)])
+      [] k = "uprint" -> S([k |-> "uprint", s |-> Pick(c.sts \ {"t"})])
+      [] k = "mkpu"  -> LET n == Pick(FreeQs(c)) IN
+                        [s |-> [k |-> "mkpu", p |-> n, s |-> Pick(c.sts)], c |-> [c EXCEPT !.qs = @ \cup {n}, !.defd = @ \cup {n}]]
+      [] k = "qfset" -> S([k |-> "qfset", p |-> Pick(c.qs), f |-> Pick({"a", "b"}), op |-> Pick({"set", "add"}), e |-> GenE(1, c)])
+      [] k = "qcopy" -> S([k |-> "qcopy", p |-> Pick(c.qs), s |-> Pick(c.sts), form |-> Pick({"store", "load"})])
       [] k = "gscope" -> LET lab == <<"G1", "G2", "G3">>[Len(c.gotos) + 1] IN
                          S([k |-> "gscope", lab |-> lab, body |-> GenB(Pick(1..3), [Inner(c) EXCEPT !.gotos = Append(@, lab)])])
       [] k = "goto"  -> S([k |-> "goto", lab |-> Pick({c.gotos[i] : i \in 1..Len(c.gotos)})])
@@ -252,7 +298,7 @@ GenS(c) ==
                             c1 == [Inner(c) EXCEPT !.rd = @ \cup {x}, !.wr = @ \cup {x}, !.loc = @ \cup {x}]
                         IN D(x, [k |-> "gloop", lab |-> "B", x |-> x, n |-> Pick(1..2), body |-> GenB(Pick(1..2), c1)])
       [] k = "mkmap" -> LET n  == Pick(FreeMaps(c))
-                            c2 == IF Pinned THEN c ELSE [c EXCEPT !.ptrs = {}]     \* Excluded_F_C01_8
+                            c2 == c
                             f  == PickW(<< <<3, "lit">>, <<2, "make">>, <<1, "nil">> >>)
                             k1 == Pick(0..3)
                             ks == IF f # "lit" THEN <<>> ELSE IF Pick(1..2) = 1 THEN <<k1>> ELSE <<k1, (k1 + Pick(1..3)) % 4>>
@@ -290,7 +336,7 @@ GenS(c) ==
                         [s |-> [k |-> "mkptr", p |-> pn, x |-> Pick(c.wr)],
                          c |-> [c EXCEPT !.ptrs = @ \cup {pn}, !.defd = @ \cup {pn}]]
       [] k = "mksl"  -> LET n  == Pick(FreeSls(c))
-                            c2 == IF Pinned THEN c ELSE [c EXCEPT !.ptrs = {}]     \* Excluded_F_C01_8
+                            c2 == c
                             es == IF Pick(1..2) = 1 THEN <<Lit(Pick(0..5)), Lit(Pick(0..5)), Lit(Pick(0..5))>>
                                   ELSE <<GenE(1, c2), GenLeaf(c2), Lit(Pick(0..5))>>
                         IN [s |-> [k |-> "mksl", s |-> n, es |-> es],
@@ -305,24 +351,36 @@ GenS(c) ==
       [] k = "switch" -> LET n  == Pick(1..2)
                              vs == IF n = 1 THEN <<Pick(0..3)>> ELSE LET a == Pick(0..3) IN <<a, (a + Pick(1..3)) % 4>>
                              c1 == [Inner(c) EXCEPT !.incase = TRUE]
-                             c2 == c1
-                             f1 == n = 2 /\ Pick(1..3) = 1
-                         IN S([k |-> "switch", tag |-> GenE(1, c),
-                               cases |-> [i \in 1..n |-> [v |-> vs[i], body |-> GenB(Pick(1..2), IF i = 2 /\ f1 THEN c2 ELSE c1),
-                                                          fall |-> i = 1 /\ f1]],
+                             dpos == IF Pick(1..3) = 1 THEN Pick(0..n) ELSE n
+                             \* a clause that is not the last one in source order may end with fallthrough
+                             nofall == FALSE
+                             falls == [i \in 1..n |-> ~nofall /\ (i < n \/ dpos = n) /\ Pick(1..4) = 1]
+                             dfall == ~nofall /\ dpos < n /\ Pick(1..3) = 1
+                         IN S([k |-> "switch", tag |-> GenE(1, c), dpos |-> dpos, dfall |-> dfall,
+                               cases |-> [i \in 1..n |-> [v |-> vs[i], w |-> IF Pick(1..3) = 1 THEN vs[i] + 4 ELSE vs[i],
+                                                          body |-> GenB(Pick(1..2), c1), fall |-> falls[i]]],
                                dflt |-> GenB(Pick(0..1), c1)])
       [] k = "brk"   -> S([k |-> "brk",  lab |-> IF Pick(1..2) = 1 THEN "" ELSE Pick({c.labs[i] : i \in 1..Len(c.labs)})])
       [] k = "cont"  -> S([k |-> "cont", lab |-> IF Pick(1..2) = 1 \/ InSwitchOfLoop(c) THEN "" ELSE Pick({c.labs[i] : i \in 1..Len(c.labs)})])
       [] k = "ret"   -> S(IF c.ret = "val" \/ (c.ret = "named" /\ Pick(1..2) = 1)
                           THEN [k |-> "ret", bare |-> FALSE, e |-> GenE(1, c)]
                           ELSE [k |-> "ret", bare |-> TRUE, e |-> Lit(0)])
-      [] k = "mkclo" -> LET n == Pick(FreeClos(c)) IN
-                        [s |-> [k |-> "mkclo", c |-> n, body |-> GenLitBody(c)],
-                         c |-> [c EXCEPT !.clos = @ \cup {n}, !.defd = @ \cup {n}]]
+      [] k = "mkclo" -> LET n   == Pick(FreeClos(c))
+                            par == Pick(1..3) = 1
+                            cb  == IF par THEN [c EXCEPT !.rd = @ \cup {"a"}, !.wr = @ \cup {"a"}] ELSE c
+                        IN [s |-> [k |-> "mkclo", c |-> n, par |-> par, body |-> GenLitBody(cb)],
+                            c |-> [c EXCEPT !.clos = @ \cup {n}, !.clos1 = IF par THEN @ \cup {n} ELSE @, !.defd = @ \cup {n}]]
       [] k = "appclo" -> S([k |-> "appclo", body |-> GenLitBody(c)])
-      [] k = "defer" -> LET f == PickW(<< <<4, "lit">>, <<IF c.fcall THEN 2 ELSE 0, "call">>, <<2, "print">> >>) IN
-                        S(IF f = "lit" THEN [k |-> "defer", form |-> "lit", body |-> GenDeferBody(c), f |-> "", e |-> Lit(0)]
-                          ELSE [k |-> "defer", form |-> f, body |-> <<>>, f |-> IF f = "call" THEN "f" ELSE "", e |-> GenE(1, c)])
+      [] k = "defer" -> LET cl0 == c.clos \ c.clos1
+                            f == PickW(<< <<4, "lit">>, <<IF c.fcall THEN 2 ELSE 0, "call">>, <<2, "print">>, <<1, "method">>,
+                                          <<IF cl0 # {} THEN 2 ELSE 0, "clo">>, <<IF c.maps # {} THEN 1 ELSE 0, "mdel">> >>) IN
+                        S(CASE f = "lit" -> [k |-> "defer", form |-> "lit", body |-> GenDeferBody(c), f |-> "", e |-> Lit(0)]
+                            [] f = "method" -> (IF c.qs # {} /\ Pick(1..3) = 1
+                                                THEN [k |-> "defer", form |-> "method", via |-> "ptr", s |-> Pick(c.qs), body |-> <<>>, f |-> "", e |-> GenE(1, c)]
+                                                ELSE [k |-> "defer", form |-> "method", via |-> "val", s |-> Pick(c.sts), body |-> <<>>, f |-> "", e |-> GenE(1, c)])
+                            [] f = "clo"  -> [k |-> "defer", form |-> "clo", s |-> Pick(cl0), body |-> <<>>, f |-> "", e |-> Lit(0)]
+                            [] f = "mdel" -> [k |-> "defer", form |-> "mdel", s |-> Pick(c.maps), body |-> <<>>, f |-> "", e |-> GenKey(c)]
+                            [] OTHER -> [k |-> "defer", form |-> f, body |-> <<>>, f |-> IF f = "call" THEN "f" ELSE "", e |-> GenE(1, c)])
       [] k = "panic" -> S([k |-> "panic", e |-> Lit(Pick(6..9))])
       [] k = "fault" -> S([k |-> "fault", kind |-> Pick({"nilDeref", "index", "sliceBounds", "divZero", "nilMapWrite", "badAssert", "closeClosed"})])
       [] k = "recover" -> S([k |-> "recover", how |-> PickW(<< <<4, "direct">>, <<1, "helper">> >>), setr |-> c.rvar /\ Pick(1..2) = 1])
@@ -335,7 +393,7 @@ GenB(n, c) ==
     IF h.s.k \in {"brk", "cont", "ret", "panic", "fault", "goto"} THEN <<h.s>>
     \* a statement that introduces a map, slice, string or pointer is followed by at least three more,
     \* so that the new variable gets used (the weights of Kinds favour its uses once it is in scope)
-    ELSE LET rest == IF h.s.k \in {"mkmap", "mksl", "sdef", "mkptr"} /\ n - 1 < 3 THEN 3 ELSE n - 1
+    ELSE LET rest == IF h.s.k \in {"mkmap", "mksl", "sdef", "mkptr", "umk", "mkpu", "bdef"} /\ n - 1 < 3 THEN 3 ELSE n - 1
          IN <<h.s>> \o GenB(rest, h.c)
 
 \* a random program: g (pure, plain result), f (named result r, effects, may call g and
@@ -425,8 +483,8 @@ Mains ==
       << PrintS(CallE("f", Lit(1))), [k |-> "printg"] >>,
       << DLit(<<Rec("direct", FALSE)>>), PrintS(CallE("f", Lit(1))), [k |-> "printg"] >>,
       << DLit(<<Rec("direct", FALSE), [k |-> "printg"]>>),
-         [k |-> "mkclo", c |-> "c1", body |-> << AsgS("g1", CallE("f", Lit(1))), [k |-> "ret", bare |-> FALSE, e |-> Var("g1")] >>],
-         PrintS([k |-> "clo", c |-> "c1"]), [k |-> "printg"] >> }
+         [k |-> "mkclo", c |-> "c1", par |-> FALSE, body |-> << AsgS("g1", CallE("f", Lit(1))), [k |-> "ret", bare |-> FALSE, e |-> Var("g1")] >>],
+         PrintS([k |-> "clo", c |-> "c1", args |-> <<>>]), [k |-> "printg"] >> }
 
 FamilyDefer ==
     { [name |-> "", funcs |-> [f |-> [named |-> TRUE, body |-> b], g |-> GFunc, two |-> TwoF, h |-> HFunc], main |-> m] :
@@ -438,8 +496,8 @@ FamilyDefer ==
 WProg(n, fb, mb) == [name |-> n, funcs |-> [f |-> [named |-> TRUE, body |-> fb], g |-> GFunc, two |-> TwoF, h |-> HFunc], main |-> mb]
 Witnesses ==
     { WProg("label-in-case-clause", <<>>,
-            << [k |-> "switch", tag |-> Lit(1),
-                cases |-> << [v |-> 1, fall |-> FALSE,
+            << [k |-> "switch", tag |-> Lit(1), dpos |-> 1, dfall |-> FALSE,
+                cases |-> << [v |-> 1, w |-> 1, fall |-> FALSE,
                               body |-> << [k |-> "for", v |-> "i", n |-> 2, lab |-> "L1",
                                            body |-> << PrintS(Var("i")), [k |-> "brk", lab |-> "L1"] >>] >>] >>,
                 dflt |-> <<>>], [k |-> "printg"] >>),
@@ -452,9 +510,9 @@ Witnesses ==
       WProg("loop-variable-assigned-in-body", <<>>,
             << For2(<< [k |-> "inc", x |-> "i", d |-> 1], PrintS(Var("i")) >>), [k |-> "printg"] >>),
       WProg("blank-assignment-of-a-call-result", <<>>,
-            << [k |-> "mkclo", c |-> "c1", body |-> << [k |-> "ret", bare |-> FALSE, e |-> Lit(3)] >>],
-               [k |-> "blankcall", e |-> [k |-> "clo", c |-> "c1"]],
-               [k |-> "mkclo", c |-> "c2", body |-> << [k |-> "ret", bare |-> FALSE, e |-> Lit(4)] >>],
+            << [k |-> "mkclo", c |-> "c1", par |-> FALSE, body |-> << [k |-> "ret", bare |-> FALSE, e |-> Lit(3)] >>],
+               [k |-> "blankcall", e |-> [k |-> "clo", c |-> "c1", args |-> <<>>]],
+               [k |-> "mkclo", c |-> "c2", par |-> FALSE, body |-> << [k |-> "ret", bare |-> FALSE, e |-> Lit(4)] >>],
                [k |-> "printg"] >>),
       WProg("recover-in-a-loop-of-a-deferred-call",
             << DLit(<< For2(<< Rec("direct", FALSE) >>) >>), PanicS(6) >>,
@@ -464,9 +522,9 @@ Witnesses ==
                [k |-> "tlit", a |-> Lit(1), b |-> Bin("add", Lit(3), [k |-> "deref", p |-> "p1"])],
                [k |-> "printg"] >>),
       WProg("fallthrough-into-a-return-clause",
-            << [k |-> "switch", tag |-> Var("g1"),
-                cases |-> << [v |-> 5, fall |-> TRUE, body |-> << AsgS("r", Lit(1)) >>],
-                             [v |-> 2, fall |-> FALSE, body |-> << [k |-> "ret", bare |-> TRUE, e |-> Lit(0)] >>] >>,
+            << [k |-> "switch", tag |-> Var("g1"), dpos |-> 2, dfall |-> FALSE,
+                cases |-> << [v |-> 5, w |-> 5, fall |-> TRUE, body |-> << AsgS("r", Lit(1)) >>],
+                             [v |-> 2, w |-> 2, fall |-> FALSE, body |-> << [k |-> "ret", bare |-> TRUE, e |-> Lit(0)] >>] >>,
                 dflt |-> <<>>] >>,
             << PrintS(CallE("f", Lit(1))), [k |-> "printg"] >>),
       WProg("loop-variable-in-deferred-literal",
